@@ -7,6 +7,7 @@ import (
 	"encoding/json"
 	"flag"
 	"fmt"
+	"github.com/nyaruka/goflow/contactql"
 	"math/rand"
 	"reflect"
 	"sort"
@@ -197,9 +198,11 @@ var groupUUID = map[string]string{
 	"s1": "b7cf0d83-f1c9-411c-96fd-c511a4cfa86d", "s2": "1e1ce1e1-9288-4504-869e-022d1003c72a",
 	"qn": "0ec97956-c451-48a0-a180-1ce766623e31", "qf": "1e1ce1e1-9288-4504-869e-022d10030001", "qu": "1e1ce1e1-9288-4504-869e-022d10030002",
 	"ql": "1e1ce1e1-9288-4504-869e-022d10030003", "qt": "1e1ce1e1-9288-4504-869e-022d10030004", "qs": "1e1ce1e1-9288-4504-869e-022d10030005",
-	"qx": "1e1ce1e1-9288-4504-869e-022d10030006",
+	"qx": "1e1ce1e1-9288-4504-869e-022d10030006", "qc": "1e1ce1e1-9288-4504-869e-022d10030007",
 }
-var groupQuery = map[string]string{"qn": `name = "bob"`, "qf": `f1 != ""`, "qu": `tel != ""`, "ql": `language = "fra"`, "qt": `tickets > 0`, "qs": `last_seen_on != ""`, "qx": `tel != "+12065550002"`}
+var groupQuery = map[string]string{"qn": `name = "bob"`, "qf": `f1 != ""`, "qu": `tel != ""`, "ql": `language = "fra"`, "qt": `tickets > 0`, "qs": `last_seen_on != ""`, "qx": `tel != "+12065550002"`,
+	// the contact was created at 02:00 UTC on 2018-01-02: still the day before in America/Guayaquil, the sessions' timezone
+	"qc": `created_on > 2018-01-01`}
 
 // groups whose query the specification evaluates itself (ContactTrace!RefMatch) instead of trusting the real evaluator
 var groupRef = map[string][2]string{"qx": {"nottel", "+12065550002"}}
@@ -288,7 +291,7 @@ func concreteURN(u AURN) string {
 }
 
 func concreteContact(a *AContact) []byte {
-	m := M{"uuid": contactUUID, "id": 1234, "created_on": "2018-01-01T12:00:00Z", "status": a.Status}
+	m := M{"uuid": contactUUID, "id": 1234, "created_on": "2018-01-02T02:00:00Z", "status": a.Status}
 	if a.Name != "" {
 		m["name"] = a.Name
 	}
@@ -478,20 +481,39 @@ type CLine struct {
 }
 
 type QG struct {
-	UUID    string `json:"uuid"`
-	Matches bool   `json:"matches"` // contactql.EvaluateQuery on the after-contact (status not considered)
-	Ref     string `json:"ref"`     // "" or the kind of query the specification evaluates itself
-	Arg     string `json:"arg"`
+	UUID        string `json:"uuid"`
+	Matches     bool   `json:"matches"`      // contactql.EvaluateQuery on the after-contact (status not considered)
+	MatchesBase bool   `json:"matches_base"` // the same in the session's own environment (without the contact's timezone / language)
+	Ref         string `json:"ref"`          // "" or the kind of query the specification evaluates itself
+	Arg         string `json:"arg"`
 }
 
 func queryGroups(env envs.Environment, sa flows.SessionAssets, c *flows.Contact) []QG {
+	return queryGroups2(env, env, sa, c)
+}
+
+// The engine re-evaluates groups in the merged environment when an action modifies the contact and in the session's own
+// environment when a sprint starts (session.ensureQueryBasedGroups): for a condition on a calendar day the two can
+// differ for a contact with a timezone of its own. The property does not say which is meant, so both verdicts are logged.
+func queryGroups2(env, base envs.Environment, sa flows.SessionAssets, c *flows.Contact) []QG {
 	out := []QG{}
 	for _, g := range sa.Groups().All() {
 		if g.UsesQuery() {
 			// CheckQueryBasedMembership includes the status test; evaluate the bare query on an active clone
 			cl := c.Clone()
 			cl.SetStatus(flows.ContactStatusActive)
+			// the verdict of the evaluator on a query parsed afresh in THIS environment: whatever the shared, parsed
+			// query of the group remembers from the environment it was loaded or last evaluated in is not trusted
 			qg := QG{UUID: string(g.UUID()), Matches: g.CheckQueryBasedMembership(env, cl)}
+			if fresh, perr := contactql.ParseQuery(env, g.Query(), sa); perr == nil {
+				qg.Matches = contactql.EvaluateQuery(env, fresh, cl)
+			}
+			qg.MatchesBase = qg.Matches
+			if base != env {
+				if fresh, perr := contactql.ParseQuery(base, g.Query(), sa); perr == nil {
+					qg.MatchesBase = contactql.EvaluateQuery(base, fresh, cl)
+				}
+			}
 			if r, ok := groupRef[groupName[string(g.UUID())]]; ok && g.Query() == groupQuery[groupName[string(g.UUID())]] {
 				qg.Ref, qg.Arg = r[0], r[1]
 			}
@@ -729,7 +751,7 @@ func sprintLine(src string, env envs.Environment, sa flows.SessionAssets, before
 	}
 	line.After = projContact(s.Contact())
 	if s.Contact() != nil {
-		line.QGroups = queryGroups(s.MergedEnvironment(), sa, s.Contact())
+		line.QGroups = queryGroups2(s.MergedEnvironment(), s.Environment(), sa, s.Contact())
 	}
 	return line
 }
@@ -748,7 +770,7 @@ func c03Sprints(args []string) error {
 	}
 	defer f.Close()
 	var base M
-	json.Unmarshal(contactAssets("qs"), &base)
+	json.Unmarshal(contactAssets("qs", "qc"), &base)
 	eng := engine.NewBuilder().WithMaxFieldChars(4).Build()
 	n, calls := 0, 0
 	var errs []string
@@ -782,7 +804,8 @@ func c03Sprints(args []string) error {
 			src := src + "@" + trigKind
 			resetGenerators(1)
 			func() {
-				t := M{"flow": M{"uuid": flowUUID(1), "name": "Flow 1"}, "triggered_on": "2018-07-06T12:00:00Z", "type": trigKind}
+				t := M{"flow": M{"uuid": flowUUID(1), "name": "Flow 1"}, "triggered_on": "2018-07-06T12:00:00Z", "type": trigKind,
+					"environment": M{"date_format": "YYYY-MM-DD", "time_format": "tt:mm", "timezone": "America/Guayaquil", "allowed_languages": []string{"eng", "fra"}}}
 				var cm M
 				json.Unmarshal(concreteContact(&cs.Before), &cm)
 				t["contact"] = cm
